@@ -87,6 +87,8 @@ pub enum Stmt {
     SendInternal(String),
     /// send to own external queue (no target)
     SendSelf(String),
+    /// <send target="#_internal" eventexpr=..>: the event name is computed (or fails to evaluate)
+    SendInternalExpr(Expr),
     If {
         branches: Vec<(Expr, Vec<Stmt>)>,
         els: Option<Vec<Stmt>>,
